@@ -142,7 +142,7 @@ impl Property for C16Prop {
 
     fn workloads(&self, tier: Tier) -> u64 {
         match tier {
-            Tier::Quick => 25_000,
+            Tier::Quick => 50_000,
             Tier::Thorough => 500_000,
         }
     }
